@@ -116,6 +116,14 @@ SyntaxVisitor::Action NameCataloger::visitIdentifierName(const IdentifierNameSyn
     return Action::Skip;
 }
 
+SyntaxVisitor::Action NameCataloger::visitMemberAccessExpression(const MemberAccessExpressionSyntax* node)
+{
+    // The name of a member isn't an ordinary identifier (6.2.3).
+    visit(node->expression());
+
+    return Action::Skip;
+}
+
 //------------//
 // Statements //
 //------------//
@@ -126,6 +134,16 @@ SyntaxVisitor::Action NameCataloger::visitCompoundStatement(const CompoundStatem
     for (auto iter = node->statements(); iter; iter = iter->next)
         visit(iter->value);
     catalog_->dropEncloser();
+
+    return Action::Skip;
+}
+
+SyntaxVisitor::Action NameCataloger::visitGotoStatement(const GotoStatementSyntax* node)
+{
+    // The name of a label isn't an ordinary identifier (6.2.3).
+    if (node->expression()
+            && node->expression()->kind() != SyntaxKind::IdentifierName)
+        visit(node->expression());
 
     return Action::Skip;
 }
